@@ -85,8 +85,13 @@ def entries():
     for nm in ("sum", "prod", "mean", "all", "any", "amax", "amin", "max", "min"):
         E[nm] = reducer(True, nm in ("sum", "prod", "mean", "all", "any"))
     E["cumsum"] = reducer(False)
-    E["argmax"] = reducer(False)
-    E["argmin"] = reducer(False)
+    def arg_reducer(rng, mk, base=reducer(False)):        # numpy.argmax / argmin take keepdims (D44), but no axis tuple
+        args, kw = base(rng, mk)
+        if "axis" in kw and rng.random() < 0.3:
+            kw["keepdims"] = True
+        return args, kw
+    E["argmax"] = arg_reducer
+    E["argmin"] = arg_reducer
     E["count_nonzero"] = reducer(True)       # numpy.count_nonzero takes keepdims (D42)
     E["nonzero"] = lambda rng, mk: ((mk(_shape(rng, 1, 2)),), {})
 
